@@ -105,6 +105,15 @@ def observe(atoms, tol=TOL, order=None, with_params=True, reuse=None, keep=None)
     o["let_orig"] = [str(x) for x in an.get_wyckoff_letters_original()]
     o["eq_orig"] = [int(x) for x in an.get_equivalent_atoms_original()]
     o["z_orig"] = [int(z) for z in atoms.get_atomic_numbers()]
+    # the spglib dataset the analyzer worked from (public getter): bound to the returned per-atom labels by Crystal!DatasetCarried,
+    # the trace counterpart of the design model Mappings.tla
+    try:
+        ds = an.get_symmetry_dataset()
+        o["ds"] = {"has": True, "wy": [str(x) for x in ds.wyckoffs], "orb": [int(x) for x in ds.crystallographic_orbits],
+                   "m2p": [int(x) for x in ds.mapping_to_primitive], "s2p": [int(x) for x in ds.std_mapping_to_primitive],
+                   "std_types": [int(x) for x in ds.std_types]}
+    except Exception as e:
+        o["ds"] = {"has": False, "why": "%s: %s" % (type(e).__name__, str(e)[:80]), "wy": [], "orb": [], "m2p": [], "s2p": [], "std_types": []}
     # ---- independent references
     import spglib
 
